@@ -1405,13 +1405,17 @@ def c16pc(tier, seed):
         for plr in (25, 50):
             for order in (0, 1):
                 for second in ("close", "open_same", "open_opp"):
-                    ops = underwater_prefix(native) + [tx("vamm1", "update_config", "owner", dict(fluct=5)), block(15)]
-                    # tr3 builds a short over three blocks (each inside the 5 % band, and each pushing tr1 further under
+                    # a SMALL victim (its liquidation barely moves the price), pushed under water by tr2
+                    ops = [block(15), opn("tr1", "buy", 200, 1000, funds=200 if native else 0),
+                           opn("tr2", "sell", 650, 1000, funds=650 if native else 0), block(901),
+                           tx("vamm1", "update_config", "owner", dict(fluct=10)), block(15)]
+                    # tr3 builds a short over three blocks (each inside the 10 % band, each pushing tr1 further under
                     # water); closing it whole would cross the band
                     for _ in range(3):
-                        ops += [opn("tr3", "sell", 1300, 100, funds=1300 if native else 0), block(15)]
+                        ops += [opn("tr3", "sell", 2500, 100, funds=2500 if native else 0), block(15)]
                     l = liq("liq", "tr1")
                     c = close("tr3")
+                    ops += [dict(k="oracle_rel", v="vamm1", off=0, interval=1)]      # oracle at the market: no spread override
                     ops += [l, c] if order == 0 else [c, l]
                     ops += [query("engine", "position", dict(vamm="vamm1", trader="tr3"))]
                     if second == "close":
